@@ -209,6 +209,8 @@ def operand_y(o, key):
             off = None
         elif type(f).__name__ == "ImmediateOperand":
             off = f.value if _is_int(f.value) else ("n" if f.value is None else "?")
+        elif type(f).__name__ == "IdentifierOperand":
+            off = ["s", dgenc.symkey(f)]      # a symbolic displacement: Isa.Opnd.offSym
         else:
             off = "x"
         p = o.post_indexed
@@ -244,7 +246,7 @@ def semop_s(o, explicit):
         return "f,%s" % o.name
     if n == "MemoryOperand":
         y = dgenc.op_y(o)
-        offv = "~" if y[4] is None else str(y[4])
+        offv = "~" if y[4] is None else ("id" if isinstance(y[4], list) else str(y[4]))
         return "m,%s,%s,%d,%s,%s,%s,%s" % (sub_reg(o.base), sub_reg(o.index), y[3], offv, b01(y[5]), b01(y[6]), explicit.get(id(o), "H"))
     return "o"
 
